@@ -56,6 +56,9 @@ type mgrCfg struct {
 	// Prefer: which pool wins when both deliver a peer to a blocked Peer() at the same instant
 	// (1 = hash pool, 2 = node pool); owns Go's random select, see hooks.go
 	Prefer int `json:"prefer"`
+	// Gap between the heights of consecutive hashes (0 = 1). With Gap = storedPoolsAmount the
+	// header of hash i+1 moves the store window exactly onto the height of hash i.
+	Gap int `json:"gap,omitempty"`
 }
 
 type vHost struct {
@@ -169,7 +172,11 @@ func newMgrSys(cfg mgrCfg) *mgrSys {
 	s.start = time.Now()
 	for i := 0; i < cfg.Hashes; i++ {
 		s.hashes = append(s.hashes, mkHash(i))
-		s.heights = append(s.heights, uint64(100+i))
+		gap := cfg.Gap
+		if gap == 0 {
+			gap = 1
+		}
+		s.heights = append(s.heights, uint64(100+i*gap))
 		s.hpools[i] = newMPool()
 	}
 	bus := eventbus.NewBus()
@@ -607,6 +614,7 @@ func managerEV(t *testing.T, rep *vx.Report, deadline time.Time) bool {
 	runs := []run{
 		{mgrCfg{Peers: []string{"p1", "p2"}, Hashes: 1, Blacklist: true, MaxTicks: 2, Prefer: 1}, 5},
 		{mgrCfg{Peers: []string{"p1"}, Hashes: 2, Blacklist: false, MaxTicks: 2, Prefer: 2}, 5},
+		{mgrCfg{Peers: []string{"p1"}, Hashes: 2, Blacklist: true, MaxTicks: 1, Prefer: 1, Gap: storedPoolsAmount}, 5},
 	}
 	if rep.Tier == "thorough" {
 		runs = []run{
@@ -614,6 +622,8 @@ func managerEV(t *testing.T, rep *vx.Report, deadline time.Time) bool {
 			{mgrCfg{Peers: []string{"p1", "p2", "p3"}, Hashes: 1, Blacklist: true, MaxTicks: 2, Prefer: 2}, 6},
 			{mgrCfg{Peers: []string{"p1", "p2"}, Hashes: 2, Blacklist: false, MaxTicks: 3, Prefer: 2}, 6},
 			{mgrCfg{Peers: []string{"p1", "p2"}, Hashes: 1, Blacklist: true, MaxTicks: 3, Prefer: 2}, 7},
+			{mgrCfg{Peers: []string{"p1", "p2"}, Hashes: 2, Blacklist: true, MaxTicks: 2, Prefer: 1, Gap: storedPoolsAmount}, 6},
+			{mgrCfg{Peers: []string{"p1"}, Hashes: 3, Blacklist: false, MaxTicks: 2, Prefer: 2, Gap: storedPoolsAmount / 2}, 6},
 		}
 	}
 	exhaustive := true
